@@ -25,6 +25,21 @@ of the database: values, descriptors, CCCDs, service / include / characteristic 
 the built-in GAP and GATT services) and on ranges / handle lists that mix open and protected
 attributes in every order.
 
+Refusals are independent of WHAT is asked of the attribute: an attribute whose ordinary write (a fresh marker value)
+was refused as it should is also written with its CURRENT value (a Write Response would be an equality oracle on a
+value the link may neither read nor write), the empty value, a prefix of the current value, a value of the greatest
+length the bearer's ATT_MTU allows and - through a packed characteristic adapter - values the application cannot
+decode; an attribute whose ordinary Read Blob was refused is asked again at the value's end, beyond it, at 0xFFFF,
+at the last byte and at 0. Keys of these end in /value-<class> or /offset-<class>.
+
+The database reaches bumble by every route it offers (vlib/att_peer.py ROUTES): Service / Characteristic /
+Descriptor objects with Permissions flags (one session in three), and - two sessions in three, in turn - the same
+objects with permission STRINGS (',' and '|' spellings, keyword arguments, UUID strings), characteristic adapters
+around them (base, delegated, packed), TemplateService subclasses through Device.add_services, and `gatt_services`
+of a DeviceConfiguration loaded from a dict and from a JSON file (values attached afterwards, which is all that
+form lacks). The oracle judges by the permissions the harness ASKED for; the clause
+construction/permissions-differ/<route>/<role> compares them with what the server's attribute object holds.
+
 Link security, two ways:
   direct-state cases   the harness puts the server's Connection object into {plain, encrypted, encrypted +
                        authenticated} (Harness.set_link) and runs everything above once: all 256 permission bytes.
@@ -59,7 +74,11 @@ RULE = ('cases enumerate permission-byte chunk (8 x 32 = all 256 bytes on value 
         'permutation of all 256) x link state {plain, encrypted, encrypted+authenticated} x bearer {fixed, enhanced}; '
         'inside a case every attribute is exercised by the single-handle operations and every open/protected order '
         'pattern of length 2-3 by the range and handle-list operations. A case is non-trivial when it judged at least '
-        'one refused and one granted access; distinct = (chunk, link state, bearer, database seed). Event-driven '
+        'one refused and one granted access; distinct = (chunk, link state, bearer, database seed). Two sessions in '
+        'three build the database by another route (permission strings, adapters, TemplateService, device '
+        'configuration dict / JSON file), five routes in turn over (chunk, link, bearer). Attributes refused properly '
+        'for the ordinary value / offset are attacked again with the current value, the empty value, a prefix, a '
+        'maximum-length value, undecodable values and Read Blob offsets at / beyond the end. Event-driven '
         'histories: 5 fixed histories of 10-11 link-security events (encryption up/down in every event form, '
         'authentication then loss of security, failure events, reconnections, Just Works pairing) x bearer + seeded '
         'random histories of 9 events; after every event the whole battery of operations is judged against the '
@@ -83,9 +102,14 @@ ASSUMPTIONS = [
     'its error; a protected first match must be reported by its error',
     'Find By Type Value must not report a protected attribute; Attribute Not Found or the attribute\'s own '
     'permission error are both accepted',
+    'a device configuration cannot carry attribute values: on the configuration routes the harness sets the values '
+    '(static bytes or read/write callbacks) on the attributes Device.__init__ built, found by service UUID and position',
+    'a Write Request longer than 512 bytes may be refused for its length alone, so the maximum-length form stays within '
+    'min(ATT_MTU - 3, 512)',
     'service and characteristic declarations are exercised as gatt.py builds them (read-only) and with permissions '
     'changed by the application after construction',
 ]
+ALT_ROUTES = ['strings', 'adapter', 'template', 'config-dict', 'config-file']      # vlib/att_peer.py ROUTES
 # deciding counters of the event-driven histories (quick; thorough: 6 x the fixed histories, 20 x the random ones)
 HISTORY_MIN = {
     'history_steps_judged': 100, 'history_steps_with_refused_and_granted_accesses': 100,
@@ -97,15 +121,27 @@ HISTORY_MIN = {
     'refused_after_pairing-failed': 1000, 'security_went_down': 20, 'security_went_up': 30,
     'encryption_change_events_v1': 20, 'encryption_change_events_v2': 30, 'reconnections_on_the_same_handle': 6,
 }
+# deciding counters of the construction routes and of the value / offset forms of refused accesses (quick)
+FORMS_MIN = {
+    'refused_reads_at_other_offsets': 8000, 'refused_read_blob_offset_at-end': 1500,
+    'refused_read_blob_offset_beyond-end': 1500, 'refused_read_blob_offset_far-beyond': 1500,
+    'refused_read_blob_offset_zero': 1500, 'refused_write_of_value_current': 18000, 'refused_write_of_value_empty': 3000,
+    'refused_write_of_value_max-length': 3000, 'refused_write_of_value_prefix-of-current': 3000,
+    'refused_writes_of_undecodable_values_through_an_adapter': 100,
+    **{f'constructed_descriptors_checked_{x}': 400 for x in ALT_ROUTES},
+    **{f'constructed_values_checked_{x}': 900 for x in ALT_ROUTES},
+    **{f'nontrivial_sessions_on_a_database_built_from_{x}': 14 for x in ALT_ROUTES},
+    'nontrivial_sessions_on_a_database_built_from_objects': 40,
+}
 MIN_EVENTS = {  # (downgrade_mid_long_read_probes is checked in quick only through the entry below)
 
     'quick': {'downgrade_mid_long_read_probes': 10, 'refused_accesses_judged': 18000, 'granted_accesses_seen': 5000, 'disclosure_scans': 20000,
               'value_unchanged_checks': 10000, 'mixed_order_requests': 3500, 'value_attributes_exercised': 1900,
-              'eatt_accesses': 14000, 'refusals_with_matching_error': 5000, **HISTORY_MIN},
+              'eatt_accesses': 14000, 'refusals_with_matching_error': 5000, **HISTORY_MIN, **FORMS_MIN},
     'thorough': {'refused_accesses_judged': 430000, 'granted_accesses_seen': 120000, 'disclosure_scans': 480000,
                  'value_unchanged_checks': 240000, 'mixed_order_requests': 84000, 'value_attributes_exercised': 45000,
                  'eatt_accesses': 336000, 'refusals_with_matching_error': 120000,
-                 **{k: v * 6 for k, v in HISTORY_MIN.items()}},
+                 **{k: v * 6 for k, v in HISTORY_MIN.items()}, **{k: v * 6 for k, v in FORMS_MIN.items()}},
 }
 CASE_TIMEOUT = 300
 
@@ -119,12 +155,19 @@ DESC_PERM_ORDER = [(i * 37 + 11) % 256 for i in range(256)]     # a permutation 
 def plan(tier, seed):
     cases = []
     reps = 3 if tier == 'quick' else 24
+    alt = 0
     for rep in range(reps):
         for chunk in range(8):
             for li in range(3):
                 for bearer in ('att', 'eatt'):
-                    cases.append({'chunk': chunk, 'link': li, 'bearer': bearer,
-                                  'seed': seed * 1000003 + rep * 977 + chunk * 31 + li * 7 + (bearer == 'eatt')})
+                    case = {'chunk': chunk, 'link': li, 'bearer': bearer,
+                            'seed': seed * 1000003 + rep * 977 + chunk * 31 + li * 7 + (bearer == 'eatt')}
+                    if rep % 3:
+                        # two sessions in three hand the same kind of database to bumble another way (5 ways, coprime
+                        # with the 2 x 3 x 8 of the inner loops: every way meets every link state, bearer and chunk)
+                        case['route'] = ALT_ROUTES[(alt + seed) % len(ALT_ROUTES)]
+                        alt += 1
+                    cases.append(case)
     # event-driven histories: the fixed ones on both bearers, then seeded random ones
     hreps = 1 if tier == 'quick' else 6
     for rep in range(hreps):
@@ -165,7 +208,7 @@ def role_class(m):
             'builtin-value': 'value'}[m.role]
 
 
-def build_spec(rng, chunk, enc, auth):
+def build_spec(rng, chunk, enc, auth, route='objects'):
     """Service A: one characteristic per permission byte of the chunk (+ one descriptor each);
     services B*: groups sharing a 16-bit type and a length, one group per open/protected order
     pattern; services C*: declarations whose permissions the application changed."""
@@ -180,6 +223,8 @@ def build_spec(rng, chunk, enc, auth):
         kind = rng.choice(['static', 'static', 'static', 'dyn', 'dyn-v2', 'dyn-async'])
         c = {'uuid': struct.pack('<H', 0xA100 + k).hex() if k % 3 else ra.marker_value(3000 + i, 16).hex(),
              'props': 0x0A, 'perm': p, 'len': rng.choice([8, 8, 30, 60]), 'index': i, 'kind': kind, 'descs': []}
+        if route == 'adapter' and k % 2 == 1:
+            c['len'], c['kind'] = 4, 'static'       # a packed adapter: a number on the application side
         dp = DESC_PERM_ORDER[(chunk * 32 + k) % 256]
         c['descs'].append({'uuid': rng.choice(['0129', struct.pack('<H', 0xA900 + k).hex()]), 'perm': dp, 'len': 8,
                            'index': next(idx), 'kind': rng.choice(['static', 'static', 'dyn'])})
@@ -364,8 +409,32 @@ class Session:
         return True
 
     # -- single-handle operations --------------------------------------------------
-    async def single_reads(self, m):
+    def judge_read_refusal(self, opn, op, m, replies, reason, form=''):
+        """`replies` answer a Read / Read Blob of m, which is not readable on this link. `form` names the
+        parameter form (Read Blob offset class) when the ordinary form of the same request was refused as it
+        should: then the form is what discriminates. True when refused properly."""
         r = self.r
+        if replies and len(replies) == 1 and len(replies[0]) == 5 and replies[0][0] == ra.ERROR_RSP and \
+                replies[0][1] == op and replies[0][4] in (ra.E_ATTRIBUTE_NOT_LONG, ra.E_INVALID_OFFSET):
+            # these errors depend on the value's length: the server went past the permission check
+            self.count_refused()
+            r.ev('oracle_evals')
+            self.bad(f'perm/{opn}/granted/{reason}{form}',
+                  f'{opn} of {m} with {self.state_text()} answered by error {replies[0][4]:#x}, which is '
+                  f'decided from the value (its length) instead of the permission; {self.hs.ctx}')
+            return False
+        res = self.judge_refusal(op, opn, m, replies, ra.read_refusal_codes(m.perm, self.enc, self.auth), reason + form)
+        if res is None:
+            self.bad(f'perm/{opn}/granted/{reason}{form}',
+                  f'{opn} of {m} with {self.state_text()} answered by {ra.opname(replies[0][0])} '
+                  f'{replies[0][:24].hex()} instead of an error; {self.hs.ctx}')
+        return res is True
+
+    async def single_reads(self, m, offsets=0):
+        """offsets: how many further Read Blob offsets (the value's end, beyond it, the far end of the offset
+        range, the last byte) a refused attribute is asked at: the refusal must not depend on the offset"""
+        r = self.r
+        proper = {}
         for opn, op, pdu in (('read', ra.READ_REQ, ra.read(m.handle)),
                              ('read-blob', ra.READ_BLOB_REQ, ra.read_blob(m.handle, self.rng.choice([0, 1])))):
             replies = await self.ask(pdu, opn, [m])
@@ -375,21 +444,19 @@ class Session:
                 elif replies and replies[0][0] == ra.ERROR_RSP:
                     r.ev('allowed_but_error')    # Attribute Not Long etc.: availability is not this property
                 continue
-            reason = self.reason(m)
-            if replies and len(replies) == 1 and len(replies[0]) == 5 and replies[0][0] == ra.ERROR_RSP and \
-                    replies[0][1] == op and replies[0][4] in (ra.E_ATTRIBUTE_NOT_LONG, ra.E_INVALID_OFFSET):
-                # these errors depend on the value's length: the server went past the permission check
-                self.count_refused()
-                r.ev('oracle_evals')
-                self.bad(f'perm/{opn}/granted/{reason}',
-                      f'{opn} of {m} with {self.state_text()} answered by error {replies[0][4]:#x}, which is '
-                      f'decided from the value (its length) instead of the permission')
-                continue
-            res = self.judge_refusal(op, opn, m, replies, ra.read_refusal_codes(m.perm, self.enc, self.auth), reason)
-            if res is None:
-                self.bad(f'perm/{opn}/granted/{reason}',
-                      f'{opn} of {m} with {self.state_text()} answered by {ra.opname(replies[0][0])} '
-                      f'{replies[0][:24].hex()} instead of an error')
+            proper[opn] = self.judge_read_refusal(opn, op, m, replies, self.reason(m))
+        if self.readable(m) or not offsets or m.value is None or not proper.get('read-blob'):
+            # (an attribute whose ordinary Read Blob was not refused as it should is already reported)
+            return
+        n = len(m.value)
+        forms = [('at-end', n), ('beyond-end', n + 1), ('far-beyond', 0xFFFF), ('last-byte', max(0, n - 1)), ('zero', 0)]
+        k = self.rng.randrange(len(forms))
+        for name, off in (forms[k:] + forms[:k])[:offsets]:
+            replies = await self.ask(ra.read_blob(m.handle, off), f'read-blob offset {name}', [m])
+            r.ev('refused_reads_at_other_offsets')
+            r.ev(f'refused_read_blob_offset_{name}')
+            self.judge_read_refusal('read-blob', ra.READ_BLOB_REQ, m, replies, self.reason(m),
+                                    f'/offset-{name}')
 
     def snapshot(self, m):
         if m.kind == 'static':
@@ -399,11 +466,28 @@ class Session:
             return len(m.state['writes'])
         return None
 
-    async def single_writes(self, m):
+    def wire_value_now(self, m):
+        """the bytes a permitted read of m would return now (None when the model cannot know)"""
+        if m.kind == 'static':
+            v = m.obj.value
+            if isinstance(v, (bytes, bytearray)):
+                return bytes(v)
+            if isinstance(v, int) and m.state.get('adapter') == 'packed':
+                return struct.pack('<I', v)
+            return None
+        return m.value
+
+    async def single_writes(self, m, forms=0):
+        """forms: how many further VALUES (the attribute's current value, the empty value, a prefix of the current
+        value, a value of the greatest length a Write Request can carry) are written to an attribute that is not
+        writable on this link: the refusal must not depend on what is written"""
         r = self.r
+        proper = {}
         for opn, op in (('write', ra.WRITE_REQ), ('write-command', ra.WRITE_CMD)):
             self.write_serial += 1
             ln = 2 if m.role == 'cccd' else self.rng.choice([4, 8, 20])
+            if m.state.get('adapter') == 'packed':
+                ln = 4      # (the ordinary value is one the adapter can decode; the other forms are not)
             new = ra.marker_value(self.write_serial, ln, written=True) if m.role != 'cccd' else b'\x00\x00'
             before = self.snapshot(m)
             pdu = ra.write_request(m.handle, new) if op == ra.WRITE_REQ else ra.write_command(m.handle, new)
@@ -418,27 +502,68 @@ class Session:
                         # of an attribute that a later event may protect)
                         self.table.add(self.write_serial, True, key=m.index)
                 continue
-            reason = self.reason(m, write=True)
-            changed = False
-            if before is not None:
-                r.ev('value_unchanged_checks')
-                if self.after is not None:
-                    r.ev('value_unchanged_checks_in_histories')
-                r.ev('oracle_evals')
-                if after != before:
-                    changed = True
-                    self.bad(f'perm/{opn}/changed/{reason}',
-                          f'{opn} to {m} (not writable with {self.state_text()}) changed the server-side '
-                          f'value from {str(before)[:40]} to {str(after)[:40]}')
-                    if m.kind == 'static':
-                        m.obj.value = before    # restore so that later clauses see the original database
-            if op == ra.WRITE_REQ:
-                res = self.judge_refusal(op, opn, m, replies, ra.write_refusal_codes(m.perm, self.enc, self.auth), reason)
-                if res is None and not changed:
-                    self.bad(f'perm/{opn}/granted/{reason}',
-                          f'write to {m} with {self.state_text()} answered by {ra.opname(replies[0][0])}')
+            proper[opn] = self.judge_write_refusal(opn, op, m, before, after, replies, self.reason(m, write=True))
+        if self.writable(m) or not forms or not all(proper.values()):
+            # (an attribute whose ordinary write was not refused as it should is already reported)
+            return
+        if m.index <= 0 and self.rng.random() > 0.125:
+            return      # declarations and built-in attributes (most of the database, all alike): one in eight
+        cur = self.wire_value_now(m)
+        mtu = self.bearer.pairing.mtu
+        self.write_serial += 1
+        cand = [('max-length', ra.marker_value(self.write_serial, min(mtu - 3, 512), written=True)), ('empty', b'')]
+        if cur:
+            cand.append(('prefix-of-current', cur[:max(1, len(cur) // 2)]))
+        k = self.rng.randrange(len(cand))
+        cand = cand[k:] + cand[:k]
+        if cur is not None:
+            cand.insert(0, ('current', cur))      # always: the answer would be an equality oracle on the value
+        for fi, (name, value) in enumerate(cand[:forms]):
+            both = (('write', ra.WRITE_REQ), ('write-command', ra.WRITE_CMD))
+            if name == 'current':
+                # (a command that carries the current value of a static attribute has no observable outcome)
+                ops = both if m.kind.startswith('dyn') else both[:1]
             else:
-                self.count_refused()
+                ops = [both[self.rng.randrange(2)]]
+            for opn, op in ops:
+                before = self.snapshot(m)
+                pdu = ra.write_request(m.handle, value) if op == ra.WRITE_REQ else ra.write_command(m.handle, value)
+                replies = await self.ask(pdu, f'{opn} value {name}')
+                after = self.snapshot(m)
+                r.ev('refused_writes_of_other_values')
+                if m.state.get('adapter') == 'packed' and len(value) != 4:
+                    r.ev('refused_writes_of_undecodable_values_through_an_adapter')
+                r.ev(f'refused_write_of_value_{name}')
+                self.judge_write_refusal(opn, op, m, before, after, replies, self.reason(m, write=True),
+                                         f'/value-{name}')
+
+    def judge_write_refusal(self, opn, op, m, before, after, replies, reason, form=''):
+        """A Write Request / Command to m, which is not writable on this link, was sent; `before` / `after` are
+        the server-side snapshots. `form` names the written value's class when the ordinary value was refused
+        as it should. True when refused properly."""
+        r = self.r
+        changed = False
+        if before is not None:
+            r.ev('value_unchanged_checks')
+            if self.after is not None:
+                r.ev('value_unchanged_checks_in_histories')
+            r.ev('oracle_evals')
+            if after != before:
+                changed = True
+                self.bad(f'perm/{opn}/changed/{reason}{form}',
+                      f'{opn} to {m} (not writable with {self.state_text()}) changed the server-side '
+                      f'value from {str(before)[:40]} to {str(after)[:40]}; {self.hs.ctx}')
+                if m.kind == 'static':
+                    m.obj.value = before    # restore so that later clauses see the original database
+        if op == ra.WRITE_REQ:
+            res = self.judge_refusal(op, opn, m, replies, ra.write_refusal_codes(m.perm, self.enc, self.auth),
+                                     reason + form)
+            if res is None and not changed:
+                self.bad(f'perm/{opn}/granted/{reason}{form}',
+                      f'write to {m} with {self.state_text()} answered by {ra.opname(replies[0][0])}; {self.hs.ctx}')
+            return res is True and not changed
+        self.count_refused()
+        return not changed
 
     # -- ranges and handle lists ----------------------------------------------------
     async def ranged(self, members, type_le, pattern, group_type=False):
@@ -590,6 +715,23 @@ class Session:
                 r.ev('find_by_type_value_listed_only_open')
 
 
+def construction_clause(hs, r, route):
+    """What the application asked for is what the server must hold: for every value attribute and descriptor the
+    harness handed to bumble (by whatever route) the permission flags stored on the server's attribute object
+    are compared with the flags that were asked for. (The access battery judges by the flags asked for, not by
+    these: this clause only names the route when a construction route loses them.)"""
+    for m in hs.models:
+        if 'stored_perm' not in m.state:
+            continue
+        r.ev('constructed_attributes_checked')
+        r.ev(f'constructed_{m.role}s_checked_{route}')
+        r.ev('oracle_evals')
+        if m.state['stored_perm'] != m.perm:
+            r.bad(f'construction/permissions-differ/{route}/{m.role}',
+                  f'{m.role} {m.type.hex()} at handle {m.handle:#x} was handed to bumble through route "{route}" with '
+                  f'permissions {m.perm:#04x}; the attribute in the server holds {m.state["stored_perm"]:#04x}')
+
+
 async def run_case(case, r: R):
     import logging
     logging.disable(logging.CRITICAL)
@@ -599,12 +741,14 @@ async def run_case(case, r: R):
 
     rng = random.Random(case['seed'])
     link_name, enc, auth = LINKS[case['link']]
-    spec, groups, decl_groups = build_spec(rng, case['chunk'], enc, auth)
+    route = case.get('route', 'objects')
+    spec, groups, decl_groups = build_spec(rng, case['chunk'], enc, auth, route)
     # the pairing automaton keeps running (MTU tracking, windows) but its verdicts belong to C10
     side = R(case)
     hs = await ap.Harness.create(side, case['seed'], spec, eatt='config' if case['bearer'] == 'eatt' else 'off',
                                  raw_central=rng.random() < 0.5, max_delay=rng.choice([0, 0, 1, 2]),
-                                 le_acl_len=[rng.choice([27, 251]), rng.choice([27, 251])])
+                                 le_acl_len=[rng.choice([27, 251]), rng.choice([27, 251])], db_route=route)
+    construction_clause(hs, r, route)
     hs.set_link(enc, auth)
     bearer = hs.fixed
     if case['bearer'] == 'eatt':
@@ -624,7 +768,7 @@ async def run_case(case, r: R):
     order = list(hs.models)
     rng.shuffle(order)
     for m in order:
-        await ss.single_reads(m)
+        await ss.single_reads(m, offsets=1)
     # 1b. the link loses its security in the middle of a long read: the continuation of a read that
     #     started while the link qualified must be judged against the link as it is NOW
     if not (enc and auth):
@@ -674,7 +818,7 @@ async def run_case(case, r: R):
             await ss.find_by_value(members, bytes.fromhex('0028'), 'services ' + dg['pattern'])
     # 3. writes (request and command) to every attribute
     for m in order:
-        await ss.single_writes(m)
+        await ss.single_writes(m, forms=2)
     # 4. after the writes, read everything again: content written to a non-readable attribute
     #    must not come back either
     for m in order[:40]:
@@ -685,13 +829,14 @@ async def run_case(case, r: R):
     nontrivial = r.events.get('refused_accesses_judged', 0) > 0 and r.events.get('granted_accesses_seen', 0) > 0
     if nontrivial:
         r.sig(case['chunk'], link_name, case['bearer'], case['seed'])
+        r.ev(f'nontrivial_sessions_on_a_database_built_from_{route}')
     r.sched.add(hs.rg.schedule_signature)
     r.evals(ss.trail)
     r.ev('pairing_automaton_violations_left_to_C10', len(side.violations))
     r.extra['permission_bytes_on_value_attributes'] = seen_perms
     r.extra['permission_bytes_on_descriptors'] = sorted({m.perm for m in hs.models if m.role == 'descriptor'})
     r.sample = {'chunk': f'{case["chunk"] * 32:#04x}..{case["chunk"] * 32 + 31:#04x}', 'link': link_name,
-                'bearer': case['bearer'], 'attributes': len(hs.models), 'requests': ss.trail,
+                'database_built_from': route, 'bearer': case['bearer'], 'attributes': len(hs.models), 'requests': ss.trail,
                 'not_readable_here': len(ss.refused_read), 'order_patterns': [g['pattern'] for g in groups],
                 'declaration_patterns': [d['pattern'] for d in decl_groups]}
 
@@ -859,7 +1004,7 @@ async def history_case(case, r: R):
         order = list(readers)
         rng.shuffle(order)
         for m in order:
-            await ss.single_reads(m)
+            await ss.single_reads(m, offsets=0 if light else 1)
         for g in groups:
             members = [by_index[i] for i in g['indices']]
             t = bytes.fromhex(g['uuid'])
@@ -875,7 +1020,7 @@ async def history_case(case, r: R):
         worder = list(writers)
         rng.shuffle(worder)
         for m in worder:
-            await ss.single_writes(m)
+            await ss.single_writes(m, forms=0 if light else 1)
         # content written while the link qualified must not come back once it does not
         for m in order[:24]:
             await ss.single_reads(m)
@@ -948,7 +1093,12 @@ LEVEL_TEXT = ('Independent permission predicate + unique marker values: for 144 
               'length 2-3 through Read By Type, Read By Group Type, Read Multiple, Read Multiple Variable and Find By Type '
               'Value; every server->client PDU of the session is scanned for markers of attributes the link may not read, '
               'server-side values are compared before/after refused writes, and refusals must carry an error naming a '
-              'requirement the link really fails. In addition 18 (quick) / 220 (thorough) event-driven histories give '
+              'requirement the link really fails. Two sessions in three hand the database to bumble by another route '
+              '(permission strings, characteristic adapters, TemplateService + Device.add_services, DeviceConfiguration '
+              'gatt_services from a dict / JSON file) and are judged by the permissions asked for; attributes refused for '
+              'the ordinary value are written again with their current value, the empty value, a prefix, a maximum-length '
+              'value and (packed adapter) undecodable values, and read at blob offsets at / beyond the end. '
+              'In addition 18 (quick) / 220 (thorough) event-driven histories give '
               'the link its security through the events the stack receives (Encryption Change v1/v2 on/off/failed, Key '
               'Refresh, Authentication Complete, pairing completion with an authenticated or a Just Works key, '
               'reconnection on the same handle) and repeat the whole battery after every event against an independent '
